@@ -5,6 +5,7 @@ import (
 	"fmt"
 	"io"
 	"runtime"
+	"strings"
 
 	"github.com/corazawaf/coraza/v3/types"
 	"github.com/corazawaf/coraza/v3/verifrt"
@@ -53,6 +54,11 @@ type c10Scenario struct {
 	// Predecessor: another transaction ran first on the same WAF (its object is
 	// recycled) and lowered both body limits for itself by ctl
 	Predecessor bool `json:"predecessor,omitempty"`
+	// PredBody: size of the predecessor's request body (may spill); PredFault: a
+	// disk fault on the spill file while the predecessor is closed (its Close
+	// reports it; the recycled object must still count from zero)
+	PredBody  int    `json:"predecessor_body,omitempty"`
+	PredFault string `json:"predecessor_close_fault,omitempty"`
 }
 
 const c10Alphabet = "abcxyz&=%+ \n\x00\xff;"
@@ -122,6 +128,13 @@ func c10Gen(t *verifrt.Tape) *c10Scenario {
 		}
 	}
 	sc.Predecessor = t.Draw(4) == 0
+	if sc.Predecessor {
+		sc.PredBody = 2
+		if t.Draw(2) == 0 {
+			sc.PredBody = 1 + t.Draw(40)
+			sc.PredFault = pick(t, []string{"", "", "close-error", "remove-error"})
+		}
+	}
 	return sc
 }
 
@@ -295,10 +308,29 @@ func c10Exec(sc *c10Scenario, mem int, res *RunResult, variant string) *c10Outco
 			pt := h.WAF.NewTransactionWithID("c10-pred")
 			pt.ProcessURI("/lowerlimits", "POST", "HTTP/1.1")
 			pt.ProcessRequestHeaders()
-			pt.WriteRequestBody([]byte("ab"))
+			pt.WriteRequestBody([]byte(strings.Repeat("ab", 20)[:sc.PredBody]))
 			pt.ProcessRequestBody()
 			pt.ProcessLogging()
+			if sc.PredFault != "" {
+				fired := false
+				disk.Decide = func(op *simos.Op) string {
+					if !fired && faultApplies(sc.PredFault, op.Kind) {
+						fired = true
+						res.count("predecessor_close_faults", 1)
+						return sc.PredFault
+					}
+					return ""
+				}
+			}
 			pt.Close()
+			disk.Decide = nil
+			if sc.PredFault != "" {
+				// what the injected fault legitimately left behind is not the
+				// next transaction's business
+				for _, f := range disk.Files() {
+					simos.Remove(f)
+				}
+			}
 		}); p != "" {
 			res.fail("C10", "panic", "predecessor", "predecessor transaction panicked: %s", p)
 			return nil
@@ -672,6 +704,6 @@ func init() {
 		Real:      []string{"coraza transaction API, BodyBuffer, body processors (urlencoded, raw), rule engine, collections"},
 		Stub:      []string{"file system (simos in-memory disk)", "body streams (scripted readers)", "clock", "random id source"},
 		Unchecked: []string{"stored length / n of the rejecting call", "anything after an injected stream error except panic-freedom and cleanup", "ctl-changed response limits"},
-		MustHit:   []string{"predecessor_runs", "early_readers", "ctl_lowered_limit", "spill_happened", "req_limit_hit", "resp_limit_hit", "reject_fired", "fault_reader_error_fired"},
+		MustHit:   []string{"predecessor_runs", "predecessor_close_faults", "early_readers", "ctl_lowered_limit", "spill_happened", "req_limit_hit", "resp_limit_hit", "reject_fired", "fault_reader_error_fired"},
 	})
 }
